@@ -7,6 +7,7 @@ import (
 	"fmt"
 	"runtime"
 	"sync"
+	"sync/atomic"
 	"testing"
 	"time"
 
@@ -25,10 +26,14 @@ type ConcCase struct {
 	Pubs     [][]CEvent `json:"pubs"`     // one sequence per publisher
 	Handlers int        `json:"handlers"` // recording handlers on the topic
 	Readers  int        `json:"readers"`  // goroutines querying the topic while it is published to
+	// Fresh > 0: the publishers are released together onto Fresh topics that do not exist yet, one
+	// after the other (the first publish of several tasks to a new topic); no handlers, no readers
+	Fresh int `json:"fresh,omitempty"`
 }
 
 const concRule = "rapid: 2-4 publisher goroutines x generated (id, level) sequences on one topic with 1-3 recording handlers and concurrent readers; " +
-	"non-trivial = >=2 publishers published and >=2 event ids ended at different levels; distinct by case hash (schedules are sampled by the Go scheduler)"
+	"a quarter of the cases instead release 2-6 publishers with 1-3 events each together (spin barrier) onto 20-100 topics that do not exist yet, one after the other; " +
+	"non-trivial = >=2 publishers published and >=2 event ids ended at different levels, or a fresh-topic case; distinct by case hash (schedules are sampled by the Go scheduler)"
 
 func genConc(t *rapid.T) ConcCase {
 	var c ConcCase
@@ -40,11 +45,113 @@ func genConc(t *rapid.T) ConcCase {
 	c.Pubs = rapid.SliceOfN(rapid.SliceOfN(ev, min, 60), 2, 4).Draw(t, "publishers")
 	c.Handlers = rapid.IntRange(1, 3).Draw(t, "handlers")
 	c.Readers = rapid.IntRange(0, 2).Draw(t, "readers")
+	if rapid.IntRange(0, 3).Draw(t, "fresh") == 0 {
+		// short sequences: what is lost when two publishers each create the topic is the first event
+		c.Pubs = rapid.SliceOfN(rapid.SliceOfN(ev, 1, 3), 2, 6).Draw(t, "freshPublishers")
+		c.Fresh = rapid.SampledFrom([]int{20, 50, 100}).Draw(t, "rounds")
+		c.Handlers, c.Readers = 0, 0
+	}
 	return c
+}
+
+// runFresh releases the publishers together onto topics that do not exist yet.
+func runFresh(c ConcCase, x *ctx) {
+	tp := alert.NewTopics(alert.MinimumEventBufferSize)
+	tp.Open()
+	defer tp.Close()
+	total := 0
+	for _, seq := range c.Pubs {
+		total += len(seq)
+	}
+	for r := 0; r < c.Fresh; r++ {
+		topic := fmt.Sprintf("f%d", r)
+		x.at("round %d: %d publishers onto the new topic %s", r, len(c.Pubs), topic)
+		var ready int32
+		var wg sync.WaitGroup
+		errs := make([]error, len(c.Pubs))
+		n := int32(len(c.Pubs))
+		for p, seq := range c.Pubs {
+			wg.Add(1)
+			go func(p int, seq []CEvent) {
+				defer wg.Done()
+				atomic.AddInt32(&ready, 1)
+				for atomic.LoadInt32(&ready) < n {
+					runtime.Gosched()
+				}
+				for j, e := range seq {
+					err := tp.Collect(alert.Event{Topic: topic, State: alert.EventState{ID: eventIDs[e.I%4], Message: fmt.Sprintf("p%d.%d", p, j),
+						Time: time.Unix(baseTime+int64(j), 0).UTC(), Level: alert.Level(e.L % 4)}})
+					if err != nil && errs[p] == nil {
+						errs[p] = err
+					}
+				}
+			}(p, seq)
+		}
+		wg.Wait()
+		for p, err := range errs {
+			if err != nil {
+				x.fail("collect/error", "publisher %d: Collect returned %v", p, err)
+				return
+			}
+		}
+		t, ok := tp.Topic(topic)
+		if !ok {
+			x.fail("topic/vanished", "topic %s is unknown after %d events", topic, total)
+			return
+		}
+		if got := t.Collected(); got != int64(total) {
+			x.fail("topic/collected-count", "round %d: %d events were collected on the new topic %s by %d publishers, the topic counts %d", r, total, topic, len(c.Pubs), got)
+			return
+		}
+		v := topicsView{tp}
+		full, _ := v.eventStates(topic, 0)
+		model := newMTopic()
+		for id, cands := range lastCandidates(c) {
+			st, ok := full[id]
+			if !ok {
+				x.fail("topic/state-content", "round %d: the new topic %s does not list event %s although it was collected; listed:%s", r, topic, id, fmtStates(full))
+				return
+			}
+			lv, isCand := cands[st.Message]
+			if !isCand || int(st.Level) != lv {
+				x.fail("topic/state-content", "round %d: topic %s: the state of event %s is that of %s with level %s, which is not the last event with this id of any publisher", r, topic, id, st.Message, lvl(int(st.Level)))
+				return
+			}
+			model.set(id, mState{Level: lv, Time: st.Time.Unix(), Msg: st.Message})
+		}
+		checkTopic(x, v, topic, model, eventIDs)
+		if x.failed() {
+			return
+		}
+	}
+	x.label(fmt.Sprintf("fresh-topic-publishers=%d", len(c.Pubs)))
+	x.nonTrivial()
+}
+
+// lastCandidates: id -> message of the last event with that id of each publisher -> its level.
+func lastCandidates(c ConcCase) map[string]map[string]int {
+	out := map[string]map[string]int{}
+	for p, seq := range c.Pubs {
+		last := map[string]int{}
+		for j, e := range seq {
+			last[eventIDs[e.I%4]] = j
+		}
+		for id, j := range last {
+			if out[id] == nil {
+				out[id] = map[string]int{}
+			}
+			out[id][fmt.Sprintf("p%d.%d", p, j)] = seq[j].L % 4
+		}
+	}
+	return out
 }
 
 func runConc(c ConcCase, cc *kit.Case) {
 	runBounded(cc, func(x *ctx) {
+		if c.Fresh > 0 {
+			runFresh(c, x)
+			return
+		}
 		const topic, other = "ta", "tb"
 		tp := alert.NewTopics(alert.MinimumEventBufferSize)
 		tp.Open()
@@ -322,6 +429,7 @@ func runConc(c ConcCase, cc *kit.Case) {
 var concAssumptions = []string{
 	"concurrent publishers: the order between events of different publishers is not fixed; required are exactly-once per handler, FIFO per publisher, all handlers seeing the same previous level for an event, and per id a consistent chain of previous levels from OK to the final state",
 	"the final state of an event id is the last event with that id of one of the publishers",
+	"fresh-topic cases: the topic counts every collected event, lists every collected id with the state of a last event of some publisher, and reports the maximum level",
 	"fewer events (<= 240) than the handler queue (1000) are published, so no Collect may report a failed delivery",
 }
 
